@@ -603,6 +603,10 @@ class Dict(dict, base.Symbolic, pg_typing.CustomTyping):
     if field and pg_typing.MISSING_VALUE == value:
       # NOTE(daiyip): default value is already in transformed form.
       value = field.default_value
+      if isinstance(value, base.Symbolic):
+        # The default object belongs to the schema: the tree gets a copy, or
+        # mutating it later would change the default of the field for good.
+        value = value.clone(deep=True)
     else:
       value = base.from_json(
           value,
